@@ -35,7 +35,7 @@ LOOSE = NOW + 16
 CFG = {
     "quick": dict(n_inst=32, chunks=8, pool_cap=100, pool_time=2, plan_cap=150, max_product=2500, tlc_timeout=300,
                   judge_batch=100000, agree_small=0),
-    "thorough": dict(n_inst=600, chunks=12, pool_cap=300, pool_time=4, plan_cap=2000, max_product=20000, tlc_timeout=3000,
+    "thorough": dict(n_inst=1200, chunks=12, pool_cap=300, pool_time=4, plan_cap=2000, max_product=20000, tlc_timeout=3000,
                      judge_batch=4000, agree_small=600),
 }
 
@@ -192,7 +192,11 @@ def quick_selection(insts, n, rnd, max_product):
         cands = list(by[key])
         rnd.shuffle(cands)
         # prefer a shape this policy has not used yet, small ones first for speed
-        cands.sort(key=lambda i: (shapes_used.get((key[0], i["name"].split("/")[1]), 0), len(i["tasks"])))
+        # Z3 raises ("invalid extract application", a C10 matter) when a worker is partially occupied, and
+        # never places anything on a single fully occupied worker: the quick tier takes its Z3
+        # running-parent instances from two single-unit workers
+        crashy = lambda i: i["policy"] == "Z3" and key[1] in ("run", "done_run") and i["workers"] != [1, 1]  # noqa: E731
+        cands.sort(key=lambda i: (crashy(i), shapes_used.get((key[0], i["name"].split("/")[1]), 0), len(i["tasks"])))
         c = cands[0]
         sel.append(c)
         names.add(c["name"])
